@@ -247,6 +247,7 @@ package fosite
 //@   ensures [C07.lifespan-table] c.TokenLifespans != nil && lifespan_ptr(c.TokenLifespans, gt, tt) != nil ==> result == *lifespan_ptr(c.TokenLifespans, gt, tt)
 
 //@ func GetEffectiveLifespan
+//@   pure
 //@   ensures [C07.lifespan-dispatch] implements(c, ClientWithCustomTokenLifespans) ==> result == cast(c, ClientWithCustomTokenLifespans).GetEffectiveLifespan(gt, tt, fallback)
 //@   ensures [C07.lifespan-dispatch] !implements(c, ClientWithCustomTokenLifespans) ==> result == fallback
 
@@ -426,6 +427,7 @@ package fosite
 //@   let uri = old(formget(r.Form, "request_uri"))
 //@   requires f != nil && r != nil && request != nil
 //@   modifies par_exists, faults, fields(request), mapof(request.Form)
+//@   ensures !result0 && err == nil ==> request.Form == old(request.Form) && request.State == old(request.State) && request.Client == old(request.Client) && request.ResponseMode == old(request.ResponseMode) && (forall k string :: (k in request.Form) == old(k in request.Form) && request.Form[k] == old(request.Form[k]))
 //@   ensures [C17.one-time] result0 ==> err == nil && old(par_exists[uri]) && !par_exists[uri]
 //@   ensures [C17.client-bound] result0 ==> old(par_client[uri]) == old(formget(r.Form, "client_id"))
 //@   ensures [C17.authoritative] result0 ==> (forall k string :: k in old(par_req[uri]).GetRequestForm() && request.Form != old(par_req[uri]).GetRequestForm() ==> k in request.Form && request.Form[k] == old(par_req[uri]).GetRequestForm()[k])
@@ -908,6 +910,7 @@ package fosite
 
 // ---------------------------------------------------------------- C13: authorization request validation
 //@ func (Arguments).Matches
+//@   pure
 //@   ensures [C13.matches-is-set-equality] result ==> len(r) == len(items) && (forall j int :: 0 <= j && j < len(items) ==> StringInSlice(items[j], r))
 //@   invariant loop#1 [C13.matches-is-set-equality] len(r) == len(items) && $i <= len(items) && (forall j int :: 0 <= j && j < $i ==> StringInSlice(items[j], r))
 
@@ -956,9 +959,11 @@ package fosite
 //@   ensures [C13.request-object-alg-pinned] err == nil ==> oidcClient.GetRequestObjectSigningAlgorithm() == "" || oidcClient.GetRequestObjectSigningAlgorithm() == fmt.Sprintf("%s", t.Header["alg"])
 //@   ensures [C13.request-object-unsigned-only-none] err == nil && t.Method != "none" ==> client_key(oidcClient, result)
 //@ func (*Fosite).authorizeRequestParametersFromOpenIDConnectRequest
-//@   modifies everything
-//@   requires f != nil && request != nil && request.Client != nil
-//@   ensures [C13.request-uri-preregistered] true
+//@   requires f != nil && request != nil && request.Client != nil && request.Form != nil
+//@   modifies mapof(request.Form), request.State, fetched
+//@   ensures [C13.request-uri-preregistered] forall u string :: fetched[u] && !old(fetched[u]) ==> u == old(formget(request.Form, "request_uri")) && implements(request.Client, OpenIDConnectClient) && insl(cast(request.Client, OpenIDConnectClient).GetRequestURIs(), u)
+//@   assert @call(Set)#1 [C13.claims-copied-only-after-verification] oidcClient.GetRequestObjectSigningAlgorithm() == "" || oidcClient.GetRequestObjectSigningAlgorithm() == fmt.Sprintf("%s", token.Header["alg"])
+//@   ensures [C13.request-object-needs-openid-scope] !cast(RemoveEmpty(strings.Split(old(formget(request.Form, "scope")), " ")), Arguments).Has("openid") ==> err == nil && request.State == old(request.State) && (forall k string :: (k in request.Form) == old(k in request.Form) && request.Form[k] == old(request.Form[k]))
 
 // ---- C13: where tokens travel ----
 // A response "carries a token" when its parameters contain access_token or id_token. Every authorize endpoint
@@ -970,7 +975,8 @@ package fosite
 //@   modifies mapof(recv.GetParameters()), recv.GetCode()
 //@   ensures forall k string :: (k in recv.GetParameters()) == (old(k in recv.GetParameters()) || k == key)
 //@ interface AuthorizeRequester.SetDefaultResponseMode
-//@   sets recv.GetDefaultResponseMode() = responseMode
+//@   modifies recv.GetDefaultResponseMode(), recv.GetResponseMode()
+//@   ensures recv.GetDefaultResponseMode() == responseMode && recv.GetResponseMode() == (old(recv.GetResponseMode()) == ResponseModeDefault ? responseMode : old(recv.GetResponseMode()))
 //@ interface AuthorizeRequester.SetResponseTypeHandled
 //@   modifies recv.DidHandleAllResponseTypes()
 //@ interface AuthorizeEndpointHandler.HandleAuthorizeEndpointRequest
@@ -978,7 +984,7 @@ package fosite
 //@   requires requester != nil && responder != nil
 //@   modifies everything
 //@   ensures [C13.tokens-imply-fragment-default] err == nil && old(inv) ==> inv
-//@   ensures requester.GetResponseTypes() == old(requester.GetResponseTypes()) && requester.GetResponseMode() == old(requester.GetResponseMode()) && responder.GetParameters() == old(responder.GetParameters())
+//@   ensures requester.GetResponseTypes() == old(requester.GetResponseTypes()) && (old(requester.GetResponseMode()) != ResponseModeDefault ==> requester.GetResponseMode() == old(requester.GetResponseMode())) && responder.GetParameters() == old(responder.GetParameters())
 
 //@ func (*Fosite).NewAuthorizeResponse
 //@   modifies everything
@@ -987,3 +993,153 @@ package fosite
 //@   ensures [C13.tokens-not-in-query] err == nil ==> result != nil && (tokparams(result.GetParameters()) ==> ar.GetResponseMode() != ResponseModeQuery)
 //@   ensures [C13.all-response-types-handled] err == nil ==> ar.DidHandleAllResponseTypes()
 //@   invariant loop#1 [C13.tokens-not-in-query] resp.Parameters == pre(resp.Parameters) && (tokparams(resp.Parameters) ==> (ar.GetDefaultResponseMode() == ResponseModeFragment && !ar.GetResponseTypes().ExactOne("code")))
+
+// ---------------------------------------------------------------- C10: client authentication
+// secret_ok: the presented secret matches the client's current hash or one of its rotated hashes.
+//@ pureiface fosite.Hasher.Compare
+//@ spec func secret_ok(h Hasher, ctx context.Context, c Client, secret []byte) bool = h.Compare(ctx, c.GetHashedSecret(), secret) == nil || (implements(c, ClientWithSecretRotation) && (exists k int :: 0 <= k && k < len(cast(c, ClientWithSecretRotation).GetRotatedHashes()) && h.Compare(ctx, cast(c, ClientWithSecretRotation).GetRotatedHashes()[k], secret) == nil))
+//@ func (*Fosite).checkClientSecret
+//@   requires f != nil && client != nil && f.Config.GetSecretsHasher(ctx) != nil
+//@   ensures [C10.secret-current-or-rotated] (result == nil) == secret_ok(f.Config.GetSecretsHasher(ctx), ctx, client, clientSecret)
+//@   invariant loop#1 [C10.secret-current-or-rotated] err != nil && $i <= len(cc.GetRotatedHashes()) && (forall k int :: 0 <= k && k < $i ==> f.Config.GetSecretsHasher(ctx).Compare(ctx, cc.GetRotatedHashes()[k], clientSecret) != nil) && f.Config.GetSecretsHasher(ctx).Compare(ctx, client.GetHashedSecret(), clientSecret) != nil
+
+//@ func clientCredentialsFromRequestBody
+//@   ensures [C10.credentials-from-body] err == nil ==> clientID == formget(form, "client_id") && clientSecret == formget(form, "client_secret") && !(clientID == "" && forceID)
+//@   ensures [C10.credentials-from-body] err != nil ==> ekind(err) == "invalid_request" && clientID == "" && clientSecret == ""
+
+// The client registry: GetClient(id) answers with the registered client of that id (client_of models the registry).
+//@ ghost client_of : map[string]V
+//@ interface ClientManager.GetClient
+//@   ensures err == nil ==> result != nil && result == client_of[id] && result.GetID() == id
+//@   ensures err != nil ==> result == nil
+//@ interface ClientManager.ClientAssertionJWTValid
+//@ interface ClientManager.SetClientAssertionJWT
+//@   modifies jti_seen
+//@ ghost jti_seen : map[string]bool
+
+//@ func clientCredentialsFromRequest
+//@   requires r != nil
+//@   ensures [C10.credentials-extraction] err == nil && !basic_ok(r) ==> clientID == formget(form, "client_id") && clientSecret == formget(form, "client_secret") && clientID != ""
+//@   ensures [C10.credentials-extraction] err == nil && basic_ok(r) ==> unesc_ok(basic_user(r)) && unesc_ok(basic_pass(r)) && clientID == unesc(basic_user(r)) && clientSecret == unesc(basic_pass(r))
+//@   ensures [C10.credentials-extraction] err != nil ==> ekind(err) == "invalid_request"
+
+// jwt.ParseWithClaims runs the key function (which may fetch the client and assign captured variables) and verifies the
+// signature with the key it returns. Trusted: go-jose does the cryptography.
+//@ func github.com/ory/fosite/token/jwt.ParseWithClaims(tokenString, claims, keyFunc)
+//@   trusted
+//@   modifies effects(keyFunc)
+//@   ensures result != nil ==> fresh(result)
+//@   ensures err == nil ==> result != nil && result.Claims != nil && cbpost(keyFunc, result)
+
+// The key function of the client-assertion branch: it looks the client up (by client_id, else by the sub claim), insists
+// on private_key_jwt, pins the registered signing algorithm, refuses symmetric and unsigned tokens, and only hands out a
+// key registered for that client.
+//@ func (*Fosite).DefaultClientAuthenticationStrategy$1
+//@   requires f != nil && f.Store != nil && t != nil
+//@   modifies cell(clientID), cell(client)
+//@   ensures [C15.assertion-client-lookup] err == nil ==> client != nil && client == client_of[clientID] && (formget(form, "client_id") != "" ==> clientID == formget(form, "client_id")) && (formget(form, "client_id") == "" ==> typeis(t.Claims["sub"], string) && clientID == unbox(t.Claims["sub"], string))
+//@   ensures [C15.assertion-method-and-algorithm] err == nil ==> implements(client, OpenIDConnectClient) && cast(client, OpenIDConnectClient).GetTokenEndpointAuthMethod() == "private_key_jwt" && cast(client, OpenIDConnectClient).GetTokenEndpointAuthSigningAlgorithm() == fmt.Sprintf("%s", t.Header["alg"])
+//@   ensures [C15.assertion-key-registered] err == nil ==> client_key(cast(client, OpenIDConnectClient), result) && (t.Method == "RS256" || t.Method == "RS384" || t.Method == "RS512" || t.Method == "ES256" || t.Method == "ES384" || t.Method == "ES512" || t.Method == "PS256" || t.Method == "PS384" || t.Method == "PS512")
+
+// DefaultClientAuthenticationStrategy, secret branch (no client_assertion_type): the client of the presented id is returned
+// only if it is public or the presented secret matches, and only through a transport its registered method permits.
+//@ func (*Fosite).DefaultClientAuthenticationStrategy
+//@   let at = old(formget(form, "client_assertion_type"))
+//@   let secret = basic_ok(r) ? unesc(basic_pass(r)) : old(formget(form, "client_secret"))
+//@   let cid = basic_ok(r) ? unesc(basic_user(r)) : old(formget(form, "client_id"))
+//@   let fid = old(formget(form, "client_id"))
+//@   let fsecret = old(formget(form, "client_secret"))
+//@   let m = cast(result, OpenIDConnectClient).GetTokenEndpointAuthMethod()
+//@   requires f != nil && r != nil && f.Store != nil && (forall c2 context.Context :: f.Config.GetSecretsHasher(c2) != nil)
+//@   modifies jti_seen
+//@   ensures [C10.unknown-assertion-type] at != "" && at != clientAssertionJWTBearerType ==> err != nil && ekind(err) == "invalid_request"
+//@   ensures [C10.secret-or-public] at == "" && err == nil ==> result != nil && result == old(client_of)[cid] && (result.IsPublic() || secret_ok(f.Config.GetSecretsHasher(ctx), ctx, result, bytes(secret)))
+//@   ensures [C10.method-permits-transport] at == "" && err == nil && implements(result, OpenIDConnectClient) ==> (fid != "" && fsecret != "" ==> m == "client_secret_post") && (basic_ok(r) && basic_pass(r) != "" ==> m == "client_secret_basic") && (result.IsPublic() ==> m == "none")
+//@   ensures [C10.rejection-is-invalid-client-or-request] at == "" && err != nil ==> ekind(err) == "invalid_client" || ekind(err) == "invalid_request"
+//@   ensures [C10.no-state-change-on-secret-path] at == "" ==> jti_seen == old(jti_seen)
+
+// ---------------------------------------------------------------- C10: the token endpoint refuses unauthenticated clients
+//@ pureiface fosite.TokenEndpointHandler.CanSkipClientAuth fosite.TokenEndpointHandler.CanHandleTokenEndpointRequest
+//@ interface TokenEndpointHandler.HandleTokenEndpointRequest
+//@   modifies everything
+//@   ensures authn == old(authn)
+//@ func (*Fosite).AuthenticateClient
+//@   requires f != nil && r != nil && f.Store != nil && (forall c2 context.Context :: f.Config.GetSecretsHasher(c2) != nil)
+//@   modifies jti_seen
+//@   sets authn = upd(old(authn), r, err == nil ? result : old(authn[r]))
+//@ func NewRequest
+//@   ensures result != nil && fresh(result)
+//@ func NewAccessRequest
+//@   ensures result != nil && fresh(result) && result.Session == session
+//@ func (*Fosite).NewAccessRequest
+//@   requires f != nil && r != nil && f.Store != nil && (forall c2 context.Context :: f.Config.GetSecretsHasher(c2) != nil)
+//@   modifies everything
+//@   assert @call(HandleTokenEndpointRequest)#1 [C10.handler-runs-only-authenticated] clientErr == nil || loader.CanSkipClientAuth(ctx, accessRequest)
+//@   ensures [C10.some-handler-accepted] err == nil ==> result != nil
+
+// authn[r]: the client that AuthenticateClient accepted for HTTP request r (nil if none).
+//@ ghost authn : map[V]V
+
+// The revocation, pushed-authorization and device-authorization endpoints act only for the client that authenticated.
+//@ pureiface fosite.RevocationHandler.none
+//@ interface RevocationHandler.RevokeToken
+//@   modifies everything
+//@   ensures authn == old(authn)
+//@ func (*Fosite).NewRevocationRequest
+//@   requires f != nil && r != nil && f.Store != nil && (forall c2 context.Context :: f.Config.GetSecretsHasher(c2) != nil)
+//@   modifies everything
+//@   assert @call(RevokeToken)#1 [C10.revocation-requires-auth] client == authn[r]
+//@   invariant loop#1 [C10.revocation-requires-auth] client == authn[r]
+
+//@ func NewDeviceRequest
+//@   ensures result != nil && fresh(result)
+//@ func (*Fosite).NewDeviceRequest
+//@   bridge
+//@   requires f != nil && r != nil && f.Store != nil && (forall c2 context.Context :: f.Config.GetSecretsHasher(c2) != nil)
+//@   modifies everything
+//@   ensures [C10.device-authorization-requires-auth] err == nil ==> result != nil && result.GetClient() == authn[r] && result.GetClient().GetID() == formget(r.PostForm, "client_id")
+//@   ensures [C16.device-grant-registered] err == nil ==> result.GetClient().GetGrantTypes().Has("urn:ietf:params:oauth:grant-type:device_code")
+
+//@ func NewAuthorizeRequest
+//@   ensures result != nil && fresh(result)
+// newAuthorizeRequest: a successfully validated request that did not come from a pushed request belongs to the
+// registered client named by the client_id parameter.
+//@ func (*Fosite).newAuthorizeRequest
+//@   bridge
+//@   requires f != nil && r != nil && f.Store != nil
+//@   modifies fields(r), mapof(r.Form), mapof(r.PostForm), form_parsed, fetched, par_exists, faults
+//@   ensures result != nil
+//@   ensures [C13.client-exists] err == nil && isPARRequest && old(form_parsed[r]) ==> result.GetClient() != nil && result.GetClient() == old(client_of)[old(formget(r.Form, "client_id"))] && result.GetClient().GetID() == old(formget(r.Form, "client_id"))
+//@   ensures isPARRequest ==> authn == old(authn)
+//@ func (*Fosite).NewPushedAuthorizeRequest
+//@   bridge
+//@   requires f != nil && r != nil && f.Store != nil && (forall c2 context.Context :: f.Config.GetSecretsHasher(c2) != nil)
+//@   modifies everything
+//@   ensures [C10.par-client-is-authenticated-client] err == nil ==> result != nil && result.GetClient() != nil && result.GetClient().GetID() == cast(authn[r], Client).GetID()
+
+// The concrete request / response types satisfy the interface contracts used above (checked with getter bridging).
+//@ func (*AuthorizeRequest).SetDefaultResponseMode
+//@   bridge
+//@   let ar = cast(d, AuthorizeRequester)
+//@   requires d != nil
+//@   modifies ar.GetDefaultResponseMode(), ar.GetResponseMode()
+//@   ensures [C13.concrete-request-meets-interface] ar.GetDefaultResponseMode() == defaultResponseMode && ar.GetResponseMode() == (old(ar.GetResponseMode()) == ResponseModeDefault ? defaultResponseMode : old(ar.GetResponseMode()))
+//@ func (*AuthorizeRequest).GetResponseMode
+//@   requires d != nil
+//@   ensures result == d.ResponseMode
+//@ func (*AuthorizeRequest).GetDefaultResponseMode
+//@   requires d != nil
+//@   ensures result == d.DefaultResponseMode
+//@ func (*AuthorizeResponse).AddParameter
+//@   bridge
+//@   let ar = cast(a, AuthorizeResponder)
+//@   requires a != nil && a.Parameters != nil
+//@   modifies mapof(ar.GetParameters()), ar.GetCode()
+//@   ensures [C13.concrete-response-meets-interface] forall k string :: (k in ar.GetParameters()) == (old(k in ar.GetParameters()) || k == key)
+//@ func (*Fosite).GetMinParameterEntropy
+//@   requires f != nil
+//@   ensures result > 0 && (f.Config.GetMinParameterEntropy(ctx) > 0 ==> result == f.Config.GetMinParameterEntropy(ctx))
+//@ func (*Fosite).parseAuthorizeScope
+//@   requires request != nil && request.Form != nil
+//@   modifies request.RequestedScope
+//@   ensures err == nil && sameset(request.RequestedScope, RemoveEmpty(strings.Split(formget(request.Form, "scope"), " ")))
